@@ -89,7 +89,7 @@ func DecodeAddress(addr string, defaultNet *chaincfg.Params) (Address, error) {
 	// Add prefix if it does not exist, and try bch prefix first
 	addrWithPrefix := addr
 	if !strings.EqualFold(addr[:len(bchPrefix)+1], bchPrefix+":") && !strings.EqualFold(addr[:len(slpPrefix)+1], slpPrefix+":") {
-		addrWithPrefix = bchPrefix + ":" + strings.ToLower(addr) // so we don't mix cases
+		addrWithPrefix = bchPrefix + ":" + asciiLower(addr) // so we don't mix cases
 	}
 
 	var cashaddrErr error
@@ -121,7 +121,7 @@ func DecodeAddress(addr string, defaultNet *chaincfg.Params) (Address, error) {
 		// try to decode with slp prefix instead
 		addrWithPrefix := addr
 		if !strings.EqualFold(addr[:len(bchPrefix)+1], bchPrefix+":") && !strings.EqualFold(addr[:len(slpPrefix)+1], slpPrefix+":") {
-			addrWithPrefix = slpPrefix + ":" + strings.ToLower(addr) // so we don't mix cases
+			addrWithPrefix = slpPrefix + ":" + asciiLower(addr) // so we don't mix cases
 		}
 
 		// Switch on decoded length to determine the type.
@@ -931,6 +931,20 @@ func polyMod(v []byte) uint64 {
 
 func cat(x, y []byte) []byte {
 	return append(x, y...)
+}
+
+// asciiLower folds the ASCII letters A-Z to lower case and leaves every
+// other byte alone.  strings.ToLower must not be used on address strings: it
+// applies Unicode case mapping, which folds non-ASCII code points such as the
+// Kelvin sign (U+212A) onto ASCII letters.
+func asciiLower(s string) string {
+	b := []byte(s)
+	for i, c := range b {
+		if c >= 'A' && c <= 'Z' {
+			b[i] = c + ('a' - 'A')
+		}
+	}
+	return string(b)
 }
 
 func lowerCase(c byte) byte {
